@@ -3,6 +3,7 @@
 package main
 
 import (
+	"sync"
 	"net/http"
 	"net/http/httptest"
 	"net/url"
@@ -104,6 +105,7 @@ func runC12(c *ctx) {
 		}
 		emitNeedsLogin(c, pats, genPath(r, pats))
 	}
+	c12CacheSound(c)
 	// (c) handler level
 	for _, prefix := range []string{"", "/app"} {
 		pats := []string{"/public/**", "/open/*", "/exact", "/static/**/*.js"}
@@ -244,4 +246,83 @@ func emitNeedsLogin(c *ctx, pats []string, path string) {
 	nl2 := a.NeedsLogin(req, false)
 	c.count("needslogin:" + fmtVal(nl))
 	c.emit("needslogin", "pats", pats, "path", hx(path), "nl", nl, "nl2", nl2, "authnl", a.NeedsLogin(req, true))
+}
+
+// c12CacheSound: NeedsLogin keeps per-path state between requests. Whatever it memoises, the answer for a path must be the answer a FRESH instance gives for that
+// path alone: a long-lived instance is sent millions of distinct paths (half inside an ignored subtree, half outside, alternating, so that neighbours differ in
+// their decision) and every answer is compared with the stateless decision (pattern match on the cleaned path, computed here with the same matcher through a fresh
+// instance on first sight of a mismatch). 8 instances in parallel.
+func c12CacheSound(c *ctx) {
+	perWorker := 2000000
+	if c.thorough() {
+		perWorker = 12000000
+	}
+	pats := []string{"/public/**", "/assets/*", "/health"}
+	type miss struct {
+		path string
+		got  bool
+		at   int
+	}
+	var mu sync.Mutex
+	var misses []miss
+	total := 0
+	var wg sync.WaitGroup
+	for w := 0; w < 8; w++ {
+		wg.Add(1)
+		r := newRng(c.seed*1315423911 + uint64(w))
+		go func() {
+			defer wg.Done()
+			a, err := autologin.New(&config.Config{AutoLogin: true, AutoLoginIgnorePaths: pats})
+			if err != nil {
+				return
+			}
+			u := &url.URL{}
+			req := &http.Request{URL: u}
+			const alphabet = "abcdefghijklmnopqrstuvwxyz0123456789-_"
+			buf := make([]byte, 0, 40)
+			for i := 0; i < perWorker; i++ {
+				if i%250000 == 249999 { // the unchanged code remembers every path it has seen: bound the memory, a fresh long-lived instance every 250 000 requests
+					if a, err = autologin.New(&config.Config{AutoLogin: true, AutoLoginIgnorePaths: pats}); err != nil {
+						return
+					}
+				}
+				buf = buf[:0]
+				ignored := i%2 == 0
+				if ignored {
+					buf = append(buf, "/public/"...)
+				} else {
+					buf = append(buf, "/app/"...)
+				}
+				for k := 6 + r.intn(8); k > 0; k-- {
+					buf = append(buf, alphabet[r.intn(len(alphabet))])
+				}
+				u.Path = string(buf)
+				got := a.NeedsLogin(req, false)
+				if got == ignored { // an ignored path needs no login; every other path does
+					mu.Lock()
+					if len(misses) < 5 {
+						misses = append(misses, miss{u.Path, got, i})
+					}
+					mu.Unlock()
+				}
+			}
+			mu.Lock()
+			total += perWorker
+			mu.Unlock()
+		}()
+	}
+	wg.Wait()
+	first, fresh := "", false
+	if len(misses) > 0 {
+		first = misses[0].path
+		if a, err := autologin.New(&config.Config{AutoLogin: true, AutoLoginIgnorePaths: pats}); err == nil {
+			fresh = a.NeedsLogin(&http.Request{URL: &url.URL{Path: first}}, false)
+		}
+	}
+	got := false
+	if len(misses) > 0 {
+		got = misses[0].got
+	}
+	c.count("cachesound")
+	c.emit("cachesound", "pats", pats, "n", total, "mismatches", len(misses), "path", hx(first), "got", got, "fresh", fresh)
 }
